@@ -9,6 +9,7 @@ import (
 	"encoding/hex"
 	"fmt"
 	"math"
+	"os"
 	"sort"
 	"testing"
 
@@ -245,6 +246,16 @@ func TestVerif_C45_XDSParse(t *testing.T) {
 			}
 			r.EngineError("seed %q (%s) is not accepted: %s", s.Name, s.Kind, v.Outcome)
 		}
+	}
+
+	if os.Getenv("VERIF_C45_COUNT") != "" { // development aid: size of each grammar, nothing is checked
+		for _, g := range c45Gens {
+			n := 0
+			c45Enumerate(thorough, g.Gen, func([]uint8, proto.Message) bool { n++; return true })
+			fmt.Printf("grammar %s: %d derivations\n", g.Kind, n)
+		}
+		r.EngineError("VERIF_C45_COUNT set: counted only")
+		return
 	}
 
 	tally := c45NewTally()
